@@ -271,6 +271,8 @@ func init() {
 	e["fmt.Printf"] = func(fr *frame, args []value) value { return tuple{0, iface{}} }
 	e["fmt.Print"] = func(fr *frame, args []value) value { return tuple{0, iface{}} }
 	e["fmt.Fprintf"] = func(fr *frame, args []value) value { return tuple{0, iface{}} }
+	// diagnostic output of the go-ethereum loggers (node-local tracer settings): printing is not the subject
+	e["(*encoding/json.Encoder).Encode"] = func(fr *frame, args []value) value { return iface{} }
 	e["fmt.Fprintln"] = func(fr *frame, args []value) value { return tuple{0, iface{}} }
 	e["fmt.Fprint"] = func(fr *frame, args []value) value { return tuple{0, iface{}} }
 	e["fmt.Errorf"] = func(fr *frame, args []value) value {
